@@ -320,6 +320,106 @@ static Node parse_sexpr(const std::string& s, size_t& p, std::vector<int>& los) 
     throw std::runtime_error("unknown leaf " + name);
 }
 
+// =========================================================== part (c) ======
+// CONTEXT REUSE: one Action::Context object (over the fixed SummaryState of part (a)) receives a sequence of
+// operations; reference = plain map with overwrite semantics layered over the SummaryState values.  After every
+// operation get() of every key and truth value + matching wells of every condition are compared.
+struct CtxOp { const char* name; int kind; const char* func; const char* arg; double v; };   // kind 0: add(func,arg,v) 1: add(key,v) 2: get(func,arg) 3: eval condition #(int)v
+static const std::vector<CtxOp> CTXOPS = {
+    {"add(WOPR,P1,2)", 0, "WOPR", "P1", 2}, {"add(WOPR,P1,30)", 0, "WOPR", "P1", 30}, {"add(WOPR,P2,2)", 0, "WOPR", "P2", 2}, {"add(WOPR,P2,30)", 0, "WOPR", "P2", 30},
+    {"add(GOPR,G1,10)", 0, "GOPR", "G1", 10}, {"add(GOPR,G1,70)", 0, "GOPR", "G1", 70},
+    {"add(FOPR,-5)", 1, "FOPR", "", -5}, {"add(FOPR,200)", 1, "FOPR", "", 200},
+    {"add(MNTH,3)", 1, "MNTH", "", 3}, {"add(DAY,20)", 1, "DAY", "", 20}, {"add(YEAR,2021)", 1, "YEAR", "", 2021},
+    {"get(WOPR,P1)", 2, "WOPR", "P1", 0}, {"get(GOPR,G1)", 2, "GOPR", "G1", 0},
+    {"eval(c0)", 3, "", "", 0}, {"eval(c1)", 3, "", "", 1}, {"eval(c3)", 3, "", "", 3}, {"eval(c4)", 3, "", "", 4},
+};
+struct CtxKey { const char* key; const char* func; const char* arg; const char* cat; double base; };
+static const std::vector<CtxKey> CTXKEYS = {
+    {"WOPR:I1", "WOPR", "I1", "well-quantity", 0.0}, {"WOPR:P1", "WOPR", "P1", "well-quantity", 10.0}, {"WOPR:P2", "WOPR", "P2", "well-quantity", 50.0},
+    {"GOPR:G1", "GOPR", "G1", "group-quantity", GOPR_G1}, {"FOPR", "FOPR", "", "field-quantity", FOPR},
+    {"MNTH", "MNTH", "", "date-quantity", DATE_MNTH}, {"DAY", "DAY", "", "date-quantity", DATE_DAY}, {"YEAR", "YEAR", "", "date-quantity", DATE_YEAR}, {"JUL", "JUL", "", "month-constant", 7.0},
+};
+struct CtxCond { const char* name; std::vector<std::string> tok; const char* cat; };
+static const std::vector<CtxCond> CTXCONDS = {
+    {"c0", {"FOPR", ">", "0"}, "field-quantity"}, {"c1", {"WOPR", "P*", ">", "5"}, "well-quantity"}, {"c2", {"WOPR", "*", "<", "20"}, "well-quantity"},
+    {"c3", {"GOPR", "G1", ">", "50"}, "group-quantity"}, {"c4", {"MNTH", "=", "JUL"}, "date-quantity"}, {"c5", {"WOPR", "P1", ">", "5", "AND", "GOPR", "G1", ">", "50"}, "well-and-group"},
+    {"c6", {"DAY", ">", "15"}, "date-quantity"}, {"c7", {"YEAR", "=", "2020"}, "date-quantity"},
+};
+using CtxRef = std::map<std::string, double>;
+static double ctx_ref_get(const CtxRef& m, const std::string& key) { auto it = m.find(key); if (it != m.end()) return it->second; for (auto& k : CTXKEYS) if (key == k.key) return k.base; throw std::logic_error("harness: unknown key " + key); }
+static Val ctx_ref_cond(const CtxRef& m, int c) {
+    auto wset = [&](unsigned cand, const std::string& op, double rhs) { unsigned s = 0; for (auto& w : WELLS) if ((cand & w.bit) && cmp(ctx_ref_get(m, std::string("WOPR:") + w.name), op, rhs)) s |= w.bit; return s; };
+    switch (c) {
+    case 0: return {ctx_ref_get(m, "FOPR") > 0, false, 0};
+    case 1: { unsigned s = wset(bP1 | bP2, ">", 5); return {s != 0, s != 0, s}; }
+    case 2: { unsigned s = wset(bP1 | bP2 | bI1, "<", 20); return {s != 0, s != 0, s}; }
+    case 3: return {ctx_ref_get(m, "GOPR:G1") > 50, false, 0};
+    case 4: return {ctx_ref_get(m, "MNTH") == 7, false, 0};
+    case 5: { unsigned s = wset(bP1, ">", 5); bool b = s != 0 && ctx_ref_get(m, "GOPR:G1") > 50; return {b, b, b ? s : 0u}; }
+    case 6: return {ctx_ref_get(m, "DAY") > 15, false, 0};
+    default: return {ctx_ref_get(m, "YEAR") == 2020, false, 0};
+    }
+}
+static std::vector<Action::AST>* CTXAST;
+
+static void ctx_check(const Action::Context& ctx, const CtxRef& ref, const std::function<std::string()>& cs) {
+    auto rp = [&]() { return "{\"case\": " + vf::jstr(cs()) + "}"; };
+    for (auto& k : CTXKEYS) {
+        const double want = ctx_ref_get(ref, k.key);
+        const double got = k.arg[0] ? ctx.get(k.func, k.arg) : ctx.get(std::string(k.key));
+        if (got != want) { const std::string key = std::string("C18:ctx:get:") + k.cat; if (!known_key(key)) R->violation(key, std::string("Context::get(") + k.key + ") = " + vf::fmt17(got) + " after [" + cs() + "]; last value assigned (or SummaryState value) is " + vf::fmt17(want), rp()); }
+    }
+    for (size_t c = 0; c < CTXCONDS.size(); ++c) {
+        const Val want = ctx_ref_cond(ref, (int)c);
+        const Action::Result r = (*CTXAST)[c].eval(ctx);
+        unsigned got_set = 0; for (const auto& w : r.matches().wells()) { unsigned bit = bOTHER; for (auto& x : WELLS) if (w == x.name) bit = x.bit; got_set |= bit; }
+        if (r.conditionSatisfied() != want.b) { const std::string key = std::string("C18:ctx:cond:truth:") + CTXCONDS[c].cat; if (!known_key(key)) R->violation(key, "[" + join(CTXCONDS[c].tok) + "] evaluates to " + (want.b ? "false" : "true") + " on the reused Context after [" + cs() + "]; with the last assigned values it is " + (want.b ? "true" : "false"), rp()); }
+        else if (want.b && got_set != (want.has ? want.set : 0u)) { const std::string key = std::string("C18:ctx:cond:wells:") + CTXCONDS[c].cat; if (!known_key(key)) R->violation(key, "[" + join(CTXCONDS[c].tok) + "] matches " + setstr(got_set) + " on the reused Context after [" + cs() + "]; with the last assigned values the set is " + setstr(want.has ? want.set : 0u), rp()); }
+        R->observe(vf::fnv(std::string("ctx") + CTXCONDS[c].name + (r.conditionSatisfied() ? "T" : "F") + setstr(got_set)));
+    }
+}
+static void ctx_run(const std::vector<int>& ops) {
+    auto cs = [&]() { std::string s = "ctx"; for (int o : ops) { s += ' '; s += CTXOPS[o].name; } return s; };
+    R->current(cs());
+    try {
+        Action::Context ctx(CE->st, CE->wlm); CtxRef ref;
+        for (size_t i = 0; i < ops.size(); ++i) {
+            const CtxOp& o = CTXOPS[ops[i]];
+            switch (o.kind) {
+            case 0: ctx.add(o.func, o.arg, o.v); ref[std::string(o.func) + ":" + o.arg] = o.v; break;
+            case 1: ctx.add(std::string(o.func), o.v); ref[o.func] = o.v; break;
+            case 2: (void)ctx.get(o.func, o.arg); break;
+            default: (void)(*CTXAST)[(int)o.v].eval(ctx); break;
+            }
+            R->evaluations++;
+            if (i + 1 == ops.size()) ctx_check(ctx, ref, cs);        // prefixes are checked as shorter sequences
+        }
+    } catch (const std::exception& e) { if (!known_key("C18:ctx:exception")) R->violation("C18:ctx:exception", std::string("sequence [") + cs() + "] threw: " + e.what(), "{\"case\": " + vf::jstr(cs()) + "}"); }
+}
+static void part_c() {
+    const int D = R->thorough() ? 4 : 3, N = (int)CTXOPS.size();
+    std::vector<Action::AST> asts; for (auto& c : CTXCONDS) asts.emplace_back(c.tok); CTXAST = &asts;
+    uint64_t seqs = 0;
+    if (R->shard == 0) { ctx_run({}); }                        // fresh Context, no operation
+    for (int len = 1; len <= D; ++len)                         // shortest sequences first: a defect is reported on a shortest case
+        for (int first = 0; first < N; ++first) {
+            // lengths 1 and 2 (306 sequences) are run by every shard (same shortest reproducer whichever shard reports), counted by shard 0
+            const bool all = len <= 2;
+            if (!all && !R->mine()) continue;
+            std::vector<int> ops(len, 0); ops[0] = first;
+            const uint64_t ev0 = R->evaluations;
+            while (true) {
+                ctx_run(ops); ++seqs;
+                int k = len - 1; for (; k >= 1; --k) { if (++ops[k] < N) break; ops[k] = 0; }
+                if (k < 1) break;
+            }
+            if (all && R->shard != 0) { R->evaluations = ev0; }
+        }
+    if (R->shard == 0) R->sample_str("ctx add(WOPR,P1,2) add(WOPR,P1,30) eval(c1)  (one Context object, reference = overwrite map over the SummaryState values)");
+    R->count("ctx_operation_sequences_max_length_" + std::to_string(D), (long long)seqs);
+    CTXAST = nullptr;
+}
+
 // =========================================================== part (b) ======
 static const std::time_t DAY = 86400;
 struct TrigEnv {
@@ -582,8 +682,8 @@ int main(int argc, char** argv) {
     vf::Run run("C18", argc, argv); R = &run;
     init_leaves();
     CondEnv ce; CE = &ce; TrigEnv te; TE = &te;
-    std::string edges_file; bool only_a = false, only_b = false;
-    for (int i = 1; i < argc; ++i) { std::string a = argv[i]; if (a == "--edges" && i + 1 < argc) edges_file = argv[i + 1]; if (a == "--only-a") only_a = true; if (a == "--only-b") only_b = true; }
+    std::string edges_file; bool only_a = false, only_b = false, only_c = false;
+    for (int i = 1; i < argc; ++i) { std::string a = argv[i]; if (a == "--edges" && i + 1 < argc) edges_file = argv[i + 1]; if (a == "--only-a") only_a = true; if (a == "--only-b") only_b = true; if (a == "--only-c") only_c = true; }
 
     const std::string rule_a = std::string("(a) every Boolean tree with <= ") + (run.thorough() ? "5" : "4") + " comparisons over the 13-symbol leaf alphabet {" + [] { std::string s; for (auto& l : LEAVES) { if (!s.empty()) s += ", "; s += join(l.tok); } return s; }() +
         "} and " + (run.thorough() ? "6 comparisons over its first 5 symbols;" : "5 comparisons over its first 6 symbols;") + " internal nodes AND/OR freely labelled (so same-operator nesting is included), rendered with the parentheses that keep the tree plus a fully parenthesised variant, parenthesis nesting <= 3; seam Action::AST(tokens).eval(Context) on a fixed SummaryState (15 JUL 2020, wells I1 P1 P2, group G1, WLIST *L1); oracle: reference evaluator = truth value of the Boolean expression and, when it is true, the sorted matching-well list = intersection under AND / union under OR where scalar and false sub-conditions contribute no set (the set of a false condition is not compared)";
@@ -594,6 +694,7 @@ int main(int argc, char** argv) {
         "reference values of the 13 leaves are computed by the harness from its own table of summary values, glob patterns resolved by hand (P* -> P1,P2; * -> I1,P1,P2; *L1 -> P2,I1)",
         "MNTH numeric right-hand sides are integers (the nearest-integer convention for MNTH is not in the statement and not exercised)",
         "condition outcome in part (b) is produced by really evaluating the definition's condition (FOPR > 0, FOPR >= 1, FOPR > 0.5, FOPR .GT. 0) on a summary state with FOPR = +1 / -1",
+        "part (c): Action::Context::add is assumed to have assignment (last value wins) semantics over the SummaryState value, as the simulator re-uses one Context while updating well/group/date quantities",
         "serialisation round trips use Opm::Serializer<Opm::Serialization::MemPacker> on Action::Actions (and Action::State); only behaviour after the round trip is judged (structural equality is C11's business)",
         "a redefinition is a new action: the three limits are judged per definition (name + definition index), as ActionX::ready/State::run_count/run_time key them; its start time is the time of the redefinition + offset",
         "the triage model of the empty-but-present set only selects the violation key; verdicts come from the reference evaluator alone"};
@@ -618,13 +719,21 @@ int main(int argc, char** argv) {
                 std::istringstream ss(c.substr(5)); Params p{}; std::string tok; ss >> p.mr >> p.mw >> p.so >> tok;
                 Sim s(p); auto cs = [&]() { return c; };
                 while (ss >> tok) { int e = parse_ev(tok); if (e >= 0 && ev_enabled(s, e)) { apply_ev(s, e, cs); run.evaluations++; } }
+            } else if (c.rfind("ctx", 0) == 0) {
+                std::vector<Action::AST> asts; for (auto& cc : CTXCONDS) asts.emplace_back(cc.tok); CTXAST = &asts;
+                std::istringstream ss(c.substr(3)); std::string tok; std::vector<int> ops;
+                while (ss >> tok) for (size_t i = 0; i < CTXOPS.size(); ++i) if (tok == CTXOPS[i].name) ops.push_back((int)i);
+                for (size_t k = 0; k <= ops.size(); ++k) ctx_run(std::vector<int>(ops.begin(), ops.begin() + k));      // every prefix is judged
             } else if (c.rfind("edge ", 0) == 0) replay_edge(c.substr(5));
             else run.violation("C18:harness:bad-replay", "cannot parse replay case [" + c + "]");
         } catch (const std::exception& e) { run.violation("C18:harness:bad-replay", std::string("replay threw: ") + e.what()); }
         return run.finish();
     }
-    run.rule = rule_a + " || " + rule_b;
+    const std::string rule_c = std::string("(c) CONTEXT REUSE: one Action::Context object over the fixed SummaryState, every sequence of <= ") + (run.thorough() ? "4" : "3") + " operations over {" + [] { std::string s; for (auto& o : CTXOPS) { if (!s.empty()) s += ", "; s += o.name; } return s; }() + "} (c_i = condition i of: " + [] { std::string s; for (auto& c : CTXCONDS) { if (!s.empty()) s += "; "; s += std::string(c.name) + " = " + join(c.tok); } return s; }() + "); reference = plain map with overwrite semantics layered over the SummaryState values; after every sequence get() of every key (3 wells, group, field, MNTH/DAY/YEAR, JUL) and truth value + matching wells of all 8 conditions are compared";
+    run.rule = rule_a + " || " + rule_b + " || " + rule_c;
+    if (only_c) { part_c(); return run.finish(); }
     if (!only_a) part_b();
+    if (!only_a && !only_b) part_c();
     if (!only_b) part_a();
     return run.finish();
 }
